@@ -14,8 +14,8 @@ timeout 3000 make -j16 -k 2>&1 | tee "$ROOT/build/coq_build.log" | grep -v "^COQ
 for f in Model/*.v; do test -f "${f}o" || { echo "coq model build failed: $f"; exit 1; }; done
 cd "$ROOT/ocaml"
 timeout 600 coqc -Q ../coq/Model RV.Model -Q ../coq/Spec RV.Spec -Q ../coq/Proofs RV.Proofs -Q ../coq/Props RV.Props -Q ../coq/Extract RV.Extract ../coq/Extract/Extract.v > /dev/null
-ocamlfind ocamlopt -O2 -w -a -package str rvmodel.mli rvmodel.ml conv.ml driver.ml d_lex.ml d_parse.ml d_cfg.ml d_yaml.ml main.ml -o driver 2>/dev/null \
-  || ocamlfind ocamlopt -w -a rvmodel.mli rvmodel.ml conv.ml driver.ml d_lex.ml d_parse.ml d_cfg.ml d_yaml.ml main.ml -o driver
+ocamlfind ocamlopt -O2 -w -a -package str rvmodel.mli rvmodel.ml conv.ml driver.ml d_lex.ml d_parse.ml d_cfg.ml d_yaml.ml d_print.ml main.ml -o driver 2>/dev/null \
+  || ocamlfind ocamlopt -w -a rvmodel.mli rvmodel.ml conv.ml driver.ml d_lex.ml d_parse.ml d_cfg.ml d_yaml.ml d_print.ml main.ml -o driver
 cd "$ROOT/harness"
 cargo build --offline 2>&1 | tail -2
 cargo build --offline --release 2>&1 | tail -2
